@@ -9,7 +9,7 @@ unset GOSUMDB
 mkdir -p ../.build
 for d in c[0-9][0-9]; do
   grep -q "\"ready\": true" "$d/spec.json" 2>/dev/null || continue
-  go test -c -vet=off -tags verif -o ../.build/$d.test ./$d || exit 1
+  go test -c -vet=off -tags verif,verifhooks -o ../.build/$d.test ./$d || exit 1
 done
 git -C /repo checkout -- go.sum 2>/dev/null || true
 echo setup ok
